@@ -407,14 +407,15 @@ def maxL : List Int → Option Int
   | [] => none
   | x :: xs => some (xs.foldl max x)
 
+/-- One step of the arg-extreme scan: state = (best index, best value, next index). -/
+def argStep (better : Int → Int → Bool) (selectLast : Bool) (acc : Nat × Int × Nat) (v : Int) : Nat × Int × Nat :=
+  if better v acc.2.1 || (selectLast && v == acc.2.1) then (acc.2.2, v, acc.2.2 + 1)
+  else (acc.1, acc.2.1, acc.2.2 + 1)
+
 /-- Position of the first (or last) extreme value. -/
 def argBest (better : Int → Int → Bool) (selectLast : Bool) : List Int → Option Nat
   | [] => none
-  | x :: xs =>
-    let step := fun (acc : Nat × Int × Nat) (v : Int) =>
-      let (bi, bv, i) := acc
-      if better v bv || (selectLast && v == bv) then (i, v, i + 1) else (bi, bv, i + 1)
-    some (xs.foldl step (0, x, 1)).1
+  | x :: xs => some (xs.foldl (argStep better selectLast) (0, x, 1)).1
 
 def argReduce (isMax : Bool) (x : Tensor) (axis : Int) (keepdims selectLast : Bool) : R Tensor := do
   let ax ← normAxis x.rank axis
